@@ -40,7 +40,7 @@ def code_tables(ctx):
     R.floor("WIRE-PA", 20)
 
 
-def wire_and_consumption(ctx, cons=True):
+def wire_and_consumption(ctx, cons=True, strict_verdict=False):
     """WIRE: the writer's byte layout per input shape against the spec layout (arguments, payload kinds, the three
     headers, message assembly); CONS/ORDER/HINT: the parser consumes exactly the declared message and nothing behind it
     influences the verdict (shared with C04/C05)."""
@@ -58,4 +58,4 @@ def wire_and_consumption(ctx, cons=True):
     if cons:
         from rules import C04, lib_incomplete
         C04.run_cons(ctx)
-        lib_incomplete.check(ctx)
+        lib_incomplete.check(ctx, strict_verdict=strict_verdict)
